@@ -373,11 +373,14 @@ def line_layout(lens: Sequence[int], gaps: Sequence[int], lead: int, tail: int
 
 
 def cut_points(length: int, spans: Sequence[Sequence[int]], level: int) -> List[int]:
-    """ origins worth choosing on a ring. level -1: every gene start, one base inside the first gene, the
+    """ origins worth choosing on a ring. level -2: the start of the first gene, one base inside it, the
+        middle of the free bases; level -1: every gene start, one base inside the first gene, the
         middle of the free bases; level 0: gene starts, one base inside, gene ends, middle of the free
         bases; level 1: also one base before each gene end """
     cuts = []
     for index, (start, end) in enumerate(spans):
+        if level <= -2 and index > 0:
+            break
         cuts.append(start % length)
         if level >= 0 or index == 0:
             cuts.append((start + 1) % length)
